@@ -173,13 +173,12 @@ package xmpp
 //@     assert[C07] rw.id == id && !rw.wroteResp && rw.level == 0
 //@     assert[C07] iqOk == iqName(start.Name)
 //@     after: handlerCalls = handlerCalls + 1
-//@   callsite mellium.im/xmpp/internal/attr.Get#1
-//@     assert[C07] iqOk && (typ == "get" || typ == "set") && !rw.wroteResp
 // the automatic reply is addressed to the sender named by the request's own
 // (unqualified) from attribute
 //@   callsite mellium.im/xmpp/jid.Parse#1
 //@     assert[C07] exists k int :: 0 <= k && k < len(start.Attr) && unq(start.Attr[k], "from") && start.Attr[k].Value == arg0
 //@   callsite (mellium.im/xmpp/stanza.IQ).Wrap#1
+//@     assert[C07] iqOk && (typ == "get" || typ == "set") && !rw.wroteResp
 //@     assert[C07] arg0.ID == id && arg0.Type == "error"
 //@     after: autoReply = true
 //@   callsite (*deferWriter).Flush#1
